@@ -67,7 +67,7 @@ Proof.
   intros Ho Hnd. pose proof (add_callback_spec lower o Ho l c Hnd) as S. simpl in S. simpl.
   destruct (add_callback lower o l c) as [r [u|e]]; simpl.
   - destruct S as [Hg [HP _]]. right. auto.
-  - destruct S as [_ [[_ ->]|[Hg ->]]]; [left; reflexivity|right; auto].
+  - destruct S as [_ ->]. left; reflexivity.
 Qed.
 
 Lemma add_callback_wf o next l c :
@@ -132,18 +132,16 @@ Proof.
     apply H; [eapply wf_mono; [|exact Hw]; lia|apply fresh_not_in; exact Hw|lia].
   - unfold remove_callback. rewrite partition_filter. simpl. apply wf_filter. exact Hw.
   - destruct (load_plugin_module lower world n 0); try exact Hw.
-    set (s1 := St (s_cbs s) (s_next s) (unimp_after lower world (s_unimp s) n 0)).
-    pose proof (load_plugin_class_wf s1 p false o Hx Hw) as H.
-    destruct (load_plugin_class lower s1 p false o). exact H.
+    pose proof (load_plugin_class_wf s p false o Hx Hw) as H.
+    destruct (load_plugin_class lower s p false o). exact H.
   - unfold owner_load. destruct (get_callback lower (s_cbs s) n); [exact Hw|].
-    set (s1 := St (s_cbs s) (s_next s) (unimp_after lower world (s_unimp s) n imp)).
     destruct (load_plugin_module lower world n imp); try exact Hw.
-    pose proof (load_plugin_class_wf s1 p initf o Hx Hw) as H.
-    destruct (load_plugin_class lower s1 p initf o). exact H.
+    pose proof (load_plugin_class_wf s p initf o Hx Hw) as H.
+    destruct (load_plugin_class lower s p initf o). exact H.
   - unfold owner_unload. destruct (is_owner lower n); [exact Hw|].
     destruct (get_callback lower (s_cbs s) n) as [old|]; [|exact Hw].
     unfold remove_callback. rewrite partition_filter.
-    assert (wf_st (St (filter (fun x => negb (name_is lower (cname old) x)) (s_cbs s)) (s_next s) (s_unimp s))).
+    assert (wf_st (St (filter (fun x => negb (name_is lower (cname old) x)) (s_cbs s)) (s_next s))).
     { apply wf_filter. exact Hw. }
     destruct (filter (name_is lower (cname old)) (s_cbs s)); [exact H|]. destruct dief; exact H.
   - unfold owner_reload. destruct (is_owner lower n); [exact Hw|].
@@ -152,14 +150,8 @@ Proof.
     set (good := filter (fun x => negb (name_is lower n x)) (s_cbs s)).
     assert (Hg : wf (s_next s) good) by (apply wf_filter; exact Hw).
     destruct bad as [|b0 bt] eqn:Eb; [exact Hg|].
-    destruct (existsb (seq_eqb (cname b0)) (s_unimp s)); [exact Hg|].
-    set (s1 := St good (s_next s) (unimp_after lower world (s_unimp s) n imp)).
-    destruct (load_plugin_module lower world n imp).
-    + destruct dief; [exact Hg|].
-      pose proof (load_plugin_class_wf s1 p initf o Hx Hg) as H.
-      destruct (load_plugin_class lower s1 p initf o). exact H.
-    + pose proof (readd_wf o (s_next s) (b0 :: bt) good Hx Hg) as H.
-      destruct (readd lower o good (b0 :: bt)) as [r res]. simpl in *. apply H.
+    assert (Hre : wf (s_next s) (fst (readd lower o good (b0 :: bt)))).
+    { apply (readd_wf o (s_next s) (b0 :: bt) good Hx Hg).
       * rewrite <- Eb. unfold good, bad.
         eapply Permutation_NoDup; [|apply Hw].
         apply Permutation_map. clear. induction (s_cbs s) as [|a l IH]; simpl; [constructor|].
@@ -167,9 +159,15 @@ Proof.
         -- apply Permutation_cons_app. exact IH.
         -- constructor. exact IH.
       * rewrite <- Eb. apply Forall_forall. intros c Hc. apply filter_In in Hc as [Hc _].
-        destruct Hw as [_ [_ H3]]. rewrite Forall_forall in H3. auto.
-    + exact Hg.
+        destruct Hw as [_ [_ H3]]. rewrite Forall_forall in H3. auto. }
+    destruct (load_plugin_module lower world n imp).
+    + destruct dief; [exact Hg|].
+      pose proof (load_plugin_class_wf (St good (s_next s)) p initf o Hx Hg) as H.
+      destruct (load_plugin_class lower (St good (s_next s)) p initf o). exact H.
+    + destruct (readd lower o good (b0 :: bt)) as [r res]. exact Hre.
+    + destruct (readd lower o good (b0 :: bt)) as [r res]. exact Hre.
 Qed.
+
 
 Theorem steps_wf : forall ops s, Forall op_ok ops -> wf_st s -> wf_st (steps lower world s ops).
 Proof.
@@ -191,9 +189,7 @@ Proof.
   - destruct u. destruct (owner_first lower o l c ow r Ho Hnd Ea) as [t' ->]; auto.
     + subst l. left; reflexivity.
     + exists ow, t'. auto.
-  - destruct S as [_ [[_ ->]|[_ ->]]].
-    + exists ow, t. auto.
-    + subst l. exists ow, (t ++ [c]). auto.
+  - destruct S as [_ ->]. exists ow, t. auto.
 Qed.
 
 Lemma filter_owner n l :
@@ -258,14 +254,12 @@ Proof.
     destruct (add_callback lower o (s_cbs s) (mk_cb (s_next s) p)). exact H.
   - unfold remove_callback. rewrite partition_filter. simpl. apply filter_owner; assumption.
   - destruct (load_plugin_module lower world n 0); try exact Hh.
-    set (s1 := St (s_cbs s) (s_next s) (unimp_after lower world (s_unimp s) n 0)).
-    pose proof (load_plugin_class_owner s1 p false o Hx Hw Hh) as H.
-    destruct (load_plugin_class lower s1 p false o). exact H.
+    pose proof (load_plugin_class_owner s p false o Hx Hw Hh) as H.
+    destruct (load_plugin_class lower s p false o). exact H.
   - unfold owner_load. destruct (get_callback lower (s_cbs s) n); [exact Hh|].
-    set (s1 := St (s_cbs s) (s_next s) (unimp_after lower world (s_unimp s) n imp)).
     destruct (load_plugin_module lower world n imp); try exact Hh.
-    pose proof (load_plugin_class_owner s1 p initf o Hx Hw Hh) as H.
-    destruct (load_plugin_class lower s1 p initf o). exact H.
+    pose proof (load_plugin_class_owner s p initf o Hx Hw Hh) as H.
+    destruct (load_plugin_class lower s p initf o). exact H.
   - unfold owner_unload. destruct (is_owner lower n) eqn:Eo; [exact Hh|].
     destruct (get_callback lower (s_cbs s) n) as [old|] eqn:Eg; [|exact Hh].
     unfold remove_callback. rewrite partition_filter.
@@ -281,14 +275,8 @@ Proof.
     assert (Hg : wf (s_next s) good) by (apply wf_filter; exact Hw).
     assert (Hhg : owner_head good) by (apply filter_owner; assumption).
     destruct bad as [|b0 bt] eqn:Eb; [exact Hhg|].
-    destruct (existsb (seq_eqb (cname b0)) (s_unimp s)); [exact Hhg|].
-    set (s1 := St good (s_next s) (unimp_after lower world (s_unimp s) n imp)).
-    destruct (load_plugin_module lower world n imp).
-    + destruct dief; [exact Hhg|].
-      pose proof (load_plugin_class_owner s1 p initf o Hx Hg Hhg) as H.
-      destruct (load_plugin_class lower s1 p initf o). exact H.
-    + pose proof (readd_owner o (s_next s) (b0 :: bt) good Hx Hg) as H.
-      destruct (readd lower o good (b0 :: bt)) as [r res]. simpl in *. apply H; [| |exact Hhg].
+    assert (Hre : owner_head (fst (readd lower o good (b0 :: bt)))).
+    { apply (readd_owner o (s_next s) (b0 :: bt) good Hx Hg); [| |exact Hhg].
       * rewrite <- Eb. unfold good, bad.
         eapply Permutation_NoDup; [|apply Hw].
         apply Permutation_map. clear. induction (s_cbs s) as [|a l IH]; simpl; [constructor|].
@@ -296,9 +284,15 @@ Proof.
         -- apply Permutation_cons_app. exact IH.
         -- constructor. exact IH.
       * rewrite <- Eb. apply Forall_forall. intros c Hc. apply filter_In in Hc as [Hc _].
-        destruct Hw as [_ [_ H3]]. rewrite Forall_forall in H3. auto.
-    + exact Hhg.
+        destruct Hw as [_ [_ H3]]. rewrite Forall_forall in H3. auto. }
+    destruct (load_plugin_module lower world n imp).
+    + destruct dief; [exact Hhg|].
+      pose proof (load_plugin_class_owner (St good (s_next s)) p initf o Hx Hg Hhg) as H.
+      destruct (load_plugin_class lower (St good (s_next s)) p initf o). exact H.
+    + destruct (readd lower o good (b0 :: bt)) as [r res]. exact Hre.
+    + destruct (readd lower o good (b0 :: bt)) as [r res]. exact Hre.
 Qed.
+
 
 Theorem steps_owner : forall ops s,
   Forall op_ok ops -> Forall op_guarded ops -> wf_st s -> owner_head (s_cbs s) ->
